@@ -109,15 +109,19 @@ Definition no_failing_probe (tr : trace) : bool :=
   forallb (fun e => match e_k e with KProbeApply _ false _ _ => false | _ => true end) tr.
 
 Theorem c01_refuted_pinned_signal_order :
-  exists tr s i sv sl lb rep r j,
-    run step_pinned init tr = Some s /\ run step init tr = None /\ no_failing_probe tr = true /\
+  exists tr i sv sl lb rep r j,
+    (exists s, run step_pinned init tr = Some s) /\ run step init tr = None /\ no_failing_probe tr = true /\
     at_ tr i (KSlot sv sl lb rep) /\ last_rot (firstn i tr) lb = [] /\
     i < j /\ at_ tr j (KLbClaim lb None r).
 Proof.
-  exists pinned_witness. eexists. exists 8, 0, false, 0, None, 1, 12.
-  repeat split; try (vm_compute; reflexivity); try lia.
-  - eexists; split; reflexivity.
-  - eexists; split; reflexivity.
+  exists pinned_witness, 8, 0, false, 0, None, 1, 12.
+  split; [vm_compute; eexists; reflexivity|].
+  split; [vm_compute; reflexivity|].
+  split; [vm_compute; reflexivity|].
+  split; [eexists; split; reflexivity|].
+  split; [vm_compute; reflexivity|].
+  split; [lia|].
+  eexists; split; reflexivity.
 Qed.
 Print Assumptions c01_refuted_pinned_signal_order.
 
